@@ -86,6 +86,7 @@ type Report struct {
 	TraceHash    uint64
 	Choices      []int32
 	Deadlock     bool
+	Leaked       int // tasks still blocked after the root task (the call under test) returned
 	StepCap      bool
 	TooMany      bool
 	Blocked      []BlockedInfo
@@ -673,6 +674,13 @@ func Run(cfg Config, wait func(), root func()) *Report {
 		// library's own synchronisation, or finished.
 		if s.nparked == 0 {
 			if s.live == 0 {
+				break
+			}
+			if s.tasks[0].state == stDone {
+				// The call under test has returned. Tasks that are still blocked are goroutines
+				// the library keeps alive across calls (idle workers of a pool): a leak at worst,
+				// not a call that blocks forever.
+				rep.Leaked = s.live
 				break
 			}
 			// Nobody is runnable. If some task waits for a timer of the bubble's
